@@ -304,6 +304,7 @@ static void proj(FILE *f, const vrt_rec_t *r)
 			fprintf(f, "{\"e\":\"FutexRet\",\"t\":%d,\"rc\":%ld}\n", r->tid, r->a);
 		else if (!strcmp(r->name, "futex_wake"))
 			fprintf(f, "{\"e\":\"FutexWake\",\"t\":%d}\n", r->tid);
+		else if (!strcmp(r->name, "dispose")) { /* end of the object's life (_dispatch_dispose probe): C17's business */ }
 		else fprintf(f, "{\"e\":\"Unknown\",\"t\":%d,\"what\":\"probe %s\"}\n", r->tid, r->name);
 		break;
 	case VRT_ATOMIC: {
